@@ -71,7 +71,21 @@ func (w *World) evidence(choices []Choice) []int64 {
 			panic(fmt.Sprintf("evictor call for t%d without a preceding Statement.Evict", e.Task))
 		}
 		n++
-		out = append(out, e.Task, a.Action, a.Preemptor, a.Node, a.Pipelined, int64(len(a.Order)))
+		// the JobPipelined call that closed the statement this eviction was committed with
+		// (none for the intra-job phase, which commits per assigned preemptor)
+		jpCount, jpMin := int64(-1), int64(-1)
+		for k := i - 1; k >= 0; k-- {
+			if w.Trace[k].Kind == 13 {
+				if w.Trace[k].Task == w.jobOfTask(a.Preemptor) && w.jobOfTask(e.Task) != w.jobOfTask(a.Preemptor) {
+					jpCount, jpMin = w.Trace[k].Status, w.Trace[k].Node
+				}
+				break
+			}
+			if w.Trace[k].Kind == 10 || w.Trace[k].Kind == 11 {
+				break // a task attempt lies between: this commit was not preceded by a JobPipelined call
+			}
+		}
+		out = append(out, e.Task, a.Action, a.Preemptor, a.Node, a.Pipelined, jpCount, jpMin, int64(len(a.Order)))
 		out = append(out, a.Order...)
 		out = append(out, int64(len(a.Obs)))
 		for _, o := range a.Obs {
@@ -179,6 +193,7 @@ func Harness() vh.Harness {
 		law(101, last.evidence, "")
 		law(102, last.evidence, "")
 		law(103, last.evidence, "")
+		law(105, last.evidence, "")
 		sig := ""
 		if last.multiTier {
 			sig = SigFallThrough
@@ -190,7 +205,22 @@ func Harness() vh.Harness {
 			r := rng.Fork()
 			spec := GenSpec(r)
 			// classify by what the real actions did (the case itself is re-run from its tokens)
-			w, choices := runCycle(spec)
+			var w *World
+			var choices []Choice
+			crashed := false
+			func() {
+				defer func() {
+					if recover() != nil {
+						crashed = true
+					}
+				}()
+				w, choices = runCycle(spec)
+			}()
+			if crashed {
+				// the per-case run below panics again and vh reports it as a violation of this case
+				emit(fmt.Sprintf("cycle-%d", i), 1, spec.Enc(), "cycle/panic", true, map[string]any{"tiers": spec.Tiers, "actions": spec.Actions})
+				continue
+			}
 			evicted, pipelined, discarded := 0, 0, 0
 			for _, e := range w.Trace {
 				switch {
